@@ -519,3 +519,22 @@ Print Assumptions shape_prev_skips_diacritics.
 Print Assumptions shape_prev_beginning_of_line.
 Print Assumptions uc_shape_no_fuel.
 Print Assumptions uc_shape_neighbours.
+
+(* ---- packaged statement cited by Properties_C18.v ---- *)
+Theorem shape_spec : forall cur prev next,
+  find_achar_o cur = Some (lookup_achar cur) /\
+  (lookup_achar cur = None -> uc_cshape cur prev next = cur) /\
+  (forall r, lookup_achar cur = Some r ->
+     let jp := can_join prev cur in let jn := can_join cur next in
+     let form := if jp then (if jn then a_m r else a_f r) else (if jn then a_i r else a_c r) in
+     uc_cshape cur prev next = (if (form =? 0)%Z then cur else form) /\ a_c r = cur) /\
+  can_join prev cur = match lookup_achar prev, lookup_achar cur with
+                      | Some a1, Some a2 => (nz (a_i a1) || nz (a_m a1)) && (nz (a_f a2) || nz (a_m a2))
+                      | _, _ => false
+                      end /\
+  (uc_cshape cur prev next = cur \/ lookup_achar (uc_cshape cur prev next) = None).
+Proof.
+  intros cur prev next. split; [apply find_achar_is_lookup|]. split; [apply cshape_nontable|].
+  split; [intros r H; apply cshape_form; exact H|]. split; [apply can_join_spec | apply cshape_not_other_letter].
+Qed.
+Print Assumptions shape_spec.
